@@ -79,7 +79,7 @@ CMP = "comparison.py"
 M("cmp-none-checks-swapped", CMP, "        if other is None:\n            return False\n        if obj is None:\n            return True",
   "        if obj is None:\n            return True\n        if other is None:\n            return False", ["C04"])
 # (dropping bool from numeric_types is equivalent: bool is a subclass of int)
-M("cmp-decimal-not-numeric", "compat.py", "    numeric_types = bool, int, float, Decimal", "    numeric_types = bool, int, float", ["C04"], nth=1)
+M("cmp-decimal-not-numeric", "compat.py", "    numeric_types = bool, int, float, Decimal", "    numeric_types = bool, int, float", ["C04"])
 M("cmp-typestr-native-names", CMP, "    if isinstance(x, text_type):\n        return 'unicode'", "    if isinstance(x, text_type):\n        return 'str'", ["C04"])
 M("cmp-gt-as-not-lt", CMP, "        return not (self < other or self == other)", "        return not (self < other)", ["C04"])
 M("cmp-no-recursive-wrap", CMP, "            obj = tuple(Comparable(o) for o in obj)", "            obj = tuple(obj)", ["C04"])
